@@ -324,6 +324,80 @@ def ppCom (ind : Nat) : Com → List String
     [indentStr ind ++ "while (" ++ pp b ++ ") {", indentStr (ind + 2) ++ "[" ++ pp inv ++ "]"] ++
     ppCom (ind + 2) c ++ [indentStr ind ++ "}"]
 
+/-! ## The assertion language and well-sortedness (decidable; the driver answers them for every generated input)
+
+`wfC` / `wfA`: conditions / arithmetic expressions that parser2's grammar can produce (the domain of
+the print/parse theorems).  `tyC` / `tyA`: expressions whose `convert_hol` is a well-typed HOL term
+of type bool / int (every operator of `Op`, `abs` with one and `max` with two arguments);
+`wsCom`: guards are `tyC` and assigned expressions `tyA` (the domain of `sem_adequate`). -/
+
+/-- arithmetic expressions of the assertion language -/
+def wfA : Expr → Bool
+  | .var _ | .int _ => true
+  | .un .neg a => wfA a
+  | .bin o a b => o.isArith && wfA a && wfA b
+  | .fn1 _ a => wfA a
+  | .fn2 _ a b => wfA a && wfA b
+  | _ => false
+
+def BOp.isRel : BOp → Bool
+  | .eq | .ne | .le | .lt => true
+  | _ => false
+
+/-- conditions of the assertion language -/
+def wfC : Expr → Bool
+  | .bool b => b
+  | .un .not a => wfC a
+  | .bin o a b => (o.isRel && wfA a && wfA b) || (o.boolPrio.isSome && wfC a && wfC b)
+  | .ite c a b => wfC c && wfC a && wfC b
+  | _ => false
+
+
+mutual
+def tyA : Expr → Bool
+  | .var _ | .int _ => true
+  | .un .neg a => tyA a
+  | .bin o a b => o.isArith && tyA a && tyA b
+  | .fn1 .abs a => tyA a
+  | .fn2 .max a b => tyA a && tyA b
+  | .ite c a b => tyC c && tyA a && tyA b
+  | _ => false
+def tyC : Expr → Bool
+  | .bool _ => true
+  | .un .not a => tyC a
+  | .bin .eq a b | .bin .ne a b => (tyA a && tyA b) || (tyC a && tyC b)
+  | .bin .le a b | .bin .lt a b | .bin .ge a b | .bin .gt a b => tyA a && tyA b
+  | .bin .and a b | .bin .or a b | .bin .imp a b | .bin .iff a b => tyC a && tyC b
+  | .ite c a b => tyC c && tyC a && tyC b
+  | _ => false
+end
+
+def wsCom : Com → Bool
+  | .skip => true
+  | .assign _ e => tyA e
+  | .seq c1 c2 => wsCom c1 && wsCom c2
+  | .cond b c1 c2 => tyC b && wsCom c1 && wsCom c2
+  | .while b _ c => tyC b && wsCom c
+
+/-! ## `imp.vcg` (the HOL-level generator of imperative/imp.py)
+
+`imp.vcg T (Valid P c Q)` applies `pre_rule` to `compute_wp`, whose `While` case assumes
+`Entail (I ∧ ¬b) Q` and calls `vcg` on `Valid (I ∧ b) c I`: the assumptions of the theorem it returns
+are the same conditions as `get_vcs`, without the `== true` shortcut (`true ⟶ X` is kept). -/
+
+def addVcH : List Expr → List Expr
+  | a :: b :: rest => implies a b :: addVcH (b :: rest)
+  | _ => []
+
+def getVcsH : ACom → List Expr
+  | .skip pre _ => addVcH pre
+  | .assign pre _ _ _ => addVcH pre
+  | .seq pre _ a1 a2 => addVcH pre ++ getVcsH a1 ++ getVcsH a2
+  | .cond pre _ _ a1 a2 => addVcH pre ++ getVcsH a1 ++ getVcsH a2
+  | .while pre post _ _ a => addVcH pre ++ getVcsH a ++ addVcH post
+
+def vcsH (p : Expr) (c : Com) (q : Expr) : List Expr := getVcsH (computeWp c [p] q)
+
 /-! ## Tokens and lexer -/
 
 inductive Tok where
